@@ -19,8 +19,10 @@ LifeTab == [f \in AllForms |->
       [] OTHER -> 0]
 FlightForms == {"ma2", "nostore", "none", "ma5"}
 RevalForms == {"ma2", "none", "exp_fut3", "ma2_extra", "MaxAgeCaps"}
+\* forms on which the two switches make a difference (kept / not kept, own lifetime / default lifetime)
+FlipForms == {"ma2", "nostore", "none", "ma5", "private_ma", "exp_past", "nocache"}
 SmallForms == {"none", "ma2", "nostore", "exp_fut3"}
 SmallStorable == [f \in SmallForms |-> StorableTab[f]]
 SmallLife == [f \in SmallForms |-> LifeTab[f]]
-PView == <<now, origin, store, flight, creq, contacts, nextX, served>>
+PView == <<now, origin, store, flight, creq, contacts, nextX, served, pol>>
 =============================================================================
